@@ -4,3 +4,5 @@ import "sync/atomic"
 
 // vExhaustedFlag reads the handler's "topic IDs exhausted" memory.
 func vExhaustedFlag(h *handler1) bool { return atomic.LoadUint32(&h.topicIDsDepleted) != 0 }
+
+func vSeqPeek(h *handler1) (uint16, bool) { return utilSeqPeek(h) }
